@@ -17,7 +17,8 @@ PRES = ["flip", "roll", "sort", "argsort", "softmax", "log_softmax"]
 # operations that only move data (results must be bit-identical across processes)
 DATA_MOVING = {"id", "get_at", "set_at", "flip", "roll", "sort", "argsort", "argmax", "argmin", "max", "min", "maximum", "minimum", "where", "less", "equal",
                "any", "all", "count_nonzero", "logical_and", "logical_or", "less_equal", "greater", "greater_equal", "not_equal", "solve_axes", "solve_shapes", "matches"}
-FAMILIES = ["id", "id", "reduce", "reduce", "elem", "elem", "dot", "dot3", "get_at", "get_at_multi", "update_at", "argfind", "pres", "idcat", "ell", "ellred", "solve", "allscalar"]
+ADAPTERS = ["red_sum_scale", "red_max", "el_axpy", "el_mul", "red_times2", "red_times3", "el_plus1", "el_plus5"]
+FAMILIES = ["id", "id", "reduce", "reduce", "elem", "elem", "dot", "dot3", "get_at", "get_at_multi", "update_at", "argfind", "pres", "idcat", "ell", "ellred", "solve", "allscalar", "cseblock"]
 
 
 def mkdata(rng, shape, kind="int"):
@@ -134,6 +135,25 @@ def gen_call(rng, fam=None, names=NAMES):
         kw = sizes_kw(rng, [gi])
         kw.update({n: s for n, s in out if n not in dict(ax)})
         return _d("id", f"{gstr(gi)} -> {gstr(go)}", [mkdata(rng, gshape(gi), kind)], kw, axes=ax)
+    if fam == "cseblock":
+        # a composed axis holding a run of 2-4 unsized axes that keep their order wherever they occur: only the size of the run as a
+        # whole is determinable, so the call is valid exactly if the common-subexpression step folds the whole run into one axis
+        k = rng.randint(2, 4)
+        ax = axes(rng, k + 2, sizes=(1, 2, 2, 3), names=names)
+        (x, sx), (y, sy), run = ax[0], ax[-1], ax[1:-1]
+        inner = " ".join(n for n, _ in run)
+        pr = int(np.prod([s for _, s in run]))
+        style = rng.choice(["swap", "split", "merge", "reduce", "elem"])
+        kw = {x: sx, y: sy}
+        if style == "swap":
+            return _d("id", f"({x} {inner} {y}) -> ({y} {inner} {x})", [mkdata(rng, (sx * pr * sy,), kind)], kw, axes=ax)
+        if style == "split":
+            return _d("id", f"({x} {inner} {y}) -> {y} ({inner}) {x}", [mkdata(rng, (sx * pr * sy,), kind)], kw, axes=ax)
+        if style == "merge":
+            return _d("id", f"{y} ({x} {inner}) -> ({inner} {y}) {x}", [mkdata(rng, (sy, sx * pr), kind)], {x: sx}, axes=ax)
+        if style == "reduce":
+            return _d(rng.choice(["sum", "max", "min", "prod"]), f"{y} [({x} {inner})]" if rng.random() < 0.5 else f"({x} [{inner}]) {y}", [mkdata(rng, (sy, sx * pr) if True else None, kind)], {x: sx}, axes=ax)
+        return _d(rng.choice(["add", "multiply", "maximum"]), f"({x} {inner}) {y}, {y} -> {y} ({x} {inner})", [mkdata(rng, (sx * pr, sy), kind), mkdata(rng, (sy,), kind)], {x: sx}, axes=ax)
     if fam == "idcat":
         ax = axes(rng, rng.randint(1, 3), names=names)
         k = rng.randrange(len(ax))
@@ -368,7 +388,7 @@ def anonymise(rng, d):
 
 def gen_adapter_call(rng, names=NAMES):
     """A call of one of the pool adapters (adapt_numpylike_reduce / adapt_numpylike_elementwise), or None."""
-    name = rng.choice(["red_sum_scale", "red_max", "el_axpy", "el_mul"])
+    name = rng.choice(ADAPTERS)
     if name.startswith("red"):
         d = gen_call(rng, "reduce", names)
         d["op"] = "adapt:" + name
@@ -437,8 +457,20 @@ def run_call(einx, d, override_tensors=None):
 
 
 # ---- adapters and factories (used by C06 / C16 corpora; C13 / C15 have their own instrumented ones) ----
+def _times(k):
+    return lambda t, axis: np.asarray(np.sum(t, axis=axis) * k)  # one code object, one function per k (closures made by a factory)
+
+
+def _plus(k):
+    return lambda p, q: np.asarray(p + q + k)
+
+
 def _pool():
     return {
+        "red_times2": ("reduce", _times(2)),
+        "red_times3": ("reduce", _times(3)),
+        "el_plus1": ("elementwise", _plus(1)),
+        "el_plus5": ("elementwise", _plus(5)),
         "red_sum_scale": ("reduce", lambda t, axis, *, scale=1: np.asarray(np.sum(t, axis=axis) * scale)),
         "red_max": ("reduce", lambda t, axis: np.asarray(np.max(t, axis=axis))),
         "el_axpy": ("elementwise", lambda p, q, *, alpha=1: np.asarray(p + alpha * q)),
